@@ -597,7 +597,11 @@ register("C13",
          "random nested expressions with the unsafe part at any position; a package with several injectors whose value "
          "expressions have one type and differ only inside literal braces / only in the package they were written in: every "
          "injector must return the value of its own expression; non-trivial = each type-correct (expression, place) pair",
-         [_c13_part, _c13_pairs, _c13_ivalues])
+         [_c13_part, _c13_pairs, _c13_ivalues,
+          # unit tier: the real accessibleFrom on type-checked random expressions (exported / unexported / local identifiers,
+          # internal packages, positional literals of foreign structs) for three target packages, against WireV.accessibleFrom
+          stream_part("C13", lambda tier: [("access", "access", ["-seed", seed(), "-n", 8000 if tier == "quick" else 100000])],
+                      nontrivial=lambda case, im: case.get("op") == "access" and len(case.get("raw", [])) > 12)])
 
 
 def _c15_part(rep, tier):
